@@ -57,12 +57,20 @@ package keeper
 
 // ---- C16: staking hooks -------------------------------------------------------------------------------------
 // A delegation change is accepted only if staked power + bonded delegations still covers every active lock.
+// C02: the same hooks also run when the staking module ITSELF reduces a delegation: slashing a redelegation
+// (staking.Slash -> SlashRedelegation -> Unbond), which the slashing and evidence modules do in begin-block. An error
+// returned then makes Slash, and with it BeginBlock, fail; in that situation the hook must not veto (errors of the
+// staking keeper's own lookups are a different matter). Ghost: this call comes from such an involuntary reduction.
+// (Known finding F8: the hooks cannot tell, and veto it.)
+//@ ghost SlashingUnbond Bool
 //@ func (h Hooks) AfterDelegationModified
+//@ ensures SlashingUnbond ==> err != types.ErrUnableToUndelegate
 //@ ensures err == nil ==> locksCovered(Store_restake, delAddr, stakedPow(Store_restake, delAddr) + types.delegatorBonded(Other, delAddr))
 
 // Removing a delegation is accepted only if the power that REMAINS (staked + bonded delegations - the tokens of the
 // delegation being removed) still covers every active lock.
 //@ func (h Hooks) BeforeDelegationRemoved
+//@ ensures SlashingUnbond ==> err != types.ErrUnableToUndelegate
 //@ ensures err == nil ==> locksCovered(Store_restake, delAddr, stakedPow(Store_restake, delAddr) + types.delegatorBonded(Other, delAddr)
 //@           - ext("LegacyDec.RoundInt", ext("Validator.TokensFromSharesTruncated", types.validatorOf(Other, valAddr), types.delegationOf(Other, delAddr, valAddr).Shares)))
 
@@ -100,7 +108,7 @@ package keeper
 // Genesis is accepted (no panic) only if the restake module account holds exactly the sum of all recorded stakes:
 // recorded stakes are fully backed from the first block.
 //@ func (k Keeper) InitGenesis
-//@ may_panic
+//@ may_panic calls
 //@ modifies Store_restake, Other
 //@ requires forall j :: 0 <= j && j < len(data.Locks) ==> bech32ok(data.Locks[j].StakerAddress)
 //@ requires forall a Addr, key Str :: wfLock(Store_restake, a, key)
